@@ -6,7 +6,9 @@ import (
 	"time"
 
 	"github.com/btcsuite/btcd/btcutil"
+	"github.com/btcsuite/btcd/btcutil/hdkeychain"
 	"github.com/btcsuite/btcd/btcutil/psbt"
+	"github.com/btcsuite/btcd/chaincfg"
 	"github.com/btcsuite/btcd/txscript"
 	"github.com/btcsuite/btcd/wire"
 	"github.com/btcsuite/btcwallet/wtxmgr"
@@ -46,6 +48,31 @@ func (ww *zzWalletWorld) issue(op int) (btcutil.Address, bool, error) {
 			return nil, true, nil
 		}
 		return ww.addrOf(atx.Tx.TxOut[atx.ChangeIndex].PkScript), true, nil
+	case 5:
+		// dry-run import of somebody's account key into the SAME key scope:
+		// derives addresses of a new account inside a transaction that is
+		// always rolled back (the sixth newAddrMtx site)
+		root, err := hdkeychain.NewMaster([]byte{9, 8, 7, 6, 5, 4, 3, 2, 1, 0, 1, 2, 3, 4, 5, 6, 7, 8, 9, 0, 1, 2, 3, 4, 5, 6, 7, 8, 9, 0, 1, 2}, &chaincfg.MainNetParams)
+		zzW(err)
+		k := root
+		for _, i := range []uint32{84 + hdkeychain.HardenedKeyStart, hdkeychain.HardenedKeyStart, 5 + hdkeychain.HardenedKeyStart} {
+			k, err = k.DeriveNonStandard(i) // nolint:staticcheck
+			zzW(err)
+		}
+		pub, err := k.Neuter()
+		zzW(err)
+		pub, err = pub.CloneWithVersion([]byte{0x04, 0xb2, 0x47, 0x46}) // zpub
+		zzW(err)
+		at := waddrmgr.WitnessPubKey
+		props, ext, _, err := ww.w.ImportAccountDryRun("dry", pub, 0x01020304, &at, 1)
+		if err != nil {
+			return nil, false, err
+		}
+		ww.dryAcct = props.AccountNumber
+		if len(ext) != 1 {
+			return nil, false, nil
+		}
+		return ext[0].Address(), false, nil
 	default:
 		// PSBT funding with a caller-supplied input that leaves change
 		tx := wire.NewMsgTx(2)
@@ -93,9 +120,9 @@ func zzC09(bound int, nOps int) {
 	verifrt.PreemptionBound(bound)
 	opA := verifrt.Choice(nOps, "op-a")
 	opB := verifrt.Choice(nOps, "op-b")
-	names := []string{"NewAddress", "NewChangeAddress", "CurrentAddress", "txToOutputs", "FundPsbt"}
+	names := []string{"NewAddress", "NewChangeAddress", "CurrentAddress", "txToOutputs", "FundPsbt", "ImportAccountDryRun"}
 	baseExt := uint32(0)
-	if opA >= 3 || opB >= 3 {
+	if opA == 3 || opB == 3 || opA == 4 || opB == 4 {
 		ww.fund9()
 		baseExt = 2 // the two funding addresses
 		verifrt.Reach("spending-caller")
@@ -156,8 +183,18 @@ func zzC09(bound int, nOps int) {
 		} else {
 			verifrt.Assert(fp.ExternalKeyCount == wantExt && fp.InternalKeyCount == wantInt, "c09-indices-gap-free")
 		}
-		// every obtained address is known to the database
-		for _, a := range []btcutil.Address{addrA, addrB} {
+		// every obtained address is known to the database (a dry run
+		// obtains nothing: its account must exist nowhere afterwards)
+		for k, a := range []btcutil.Address{addrA, addrB} {
+			if []int{opA, opB}[k] == 5 {
+				_, rerr := rsm.AccountProperties(ns, ww.dryAcct)
+				_, ferr := fsm.AccountProperties(ns, ww.dryAcct)
+				verifrt.Assert(rerr != nil && ferr != nil, "c09-dry-run-account-exists-nowhere")
+				_, rerr = rsm.LookupAccount(ns, "dry")
+				verifrt.Assert(rerr != nil, "c09-dry-run-account-name-free")
+				verifrt.Reach("dry-run-caller")
+				continue
+			}
 			_, err := fresh.Manager.Address(ns, a)
 			verifrt.Assert(err == nil, "c09-obtained-address-persisted")
 		}
@@ -172,3 +209,5 @@ func ZzC09B2()     { zzC09(2, 2) }
 func ZzC09B2All()  { zzC09(2, 3) }
 func ZzC09B1Five() { zzC09(1, 5) }
 func ZzC09B2Five() { zzC09(2, 5) }
+func ZzC09B1Six()  { zzC09(1, 6) }
+func ZzC09B2Six()  { zzC09(2, 6) }
